@@ -146,7 +146,8 @@ type Rec struct {
 	TS     int64    `json:"ts,omitempty"`
 	N      int      `json:"n,omitempty"`
 	Keys   []string `json:"keys,omitempty"`
-	Copies []Copy   `json:"copies,omitempty"`
+	Copies []Copy    `json:"copies,omitempty"`
+	Snap   *Snapshot `json:"snap,omitempty"`
 	Info   string   `json:"info,omitempty"`
 }
 
@@ -199,4 +200,58 @@ type Result struct {
 	NTKey       string           `json:"nt_key,omitempty"` // distinctness key of the non-trivial case
 	History     []Rec            `json:"history,omitempty"`
 	Trace       string           `json:"trace,omitempty"`
+}
+
+// ---- routing snapshots (C13, C02, C03) ------------------------------------------------------
+
+type Route struct {
+	Owners  []string `json:"o"` // primary owners list; the last one is the current owner
+	Backups []string `json:"b"`
+}
+
+type MemberInfo struct {
+	Name      string `json:"name"`
+	ID        uint64 `json:"id"`
+	Birthdate int64  `json:"birth"`
+	Coord     bool   `json:"coord,omitempty"`
+}
+
+type PartStat struct {
+	Length     int      `json:"len"`
+	PrevOwners []string `json:"prev,omitempty"`
+	Backups    []string `json:"backups,omitempty"`
+	DMaps      map[string]DMapStat `json:"dmaps,omitempty"`
+}
+
+type DMapStat struct {
+	Length    int `json:"len"`
+	NumTables int `json:"tables"`
+	Allocated int `json:"alloc"`
+	Inuse     int `json:"inuse"`
+	Garbage   int `json:"garbage"`
+}
+
+type MemberSnap struct {
+	Idx        int                 `json:"idx"`
+	Addr       string              `json:"addr"`
+	Self       MemberInfo          `json:"self"`
+	Coord      MemberInfo          `json:"coordinator"`
+	Local      map[uint64]Route    `json:"local"`       // own routing view (white box)
+	ClusterRT  map[uint64]Route    `json:"cluster_rt"`  // CLUSTER.ROUTINGTABLE answered by this member
+	RTErr      string              `json:"rt_err,omitempty"`
+	MembersCmd []MemberInfo        `json:"members_cmd"` // CLUSTER.MEMBERS answered by this member
+	Known      []MemberInfo        `json:"known"`       // STATS cluster_members
+	Primary    map[uint64]PartStat `json:"primary"`     // STATS partitions
+	Backup     map[uint64]PartStat `json:"backup"`      // STATS backups
+	Err        string              `json:"err,omitempty"`
+}
+
+type Snapshot struct {
+	AtNs    int64            `json:"at_ns"`
+	Running []int            `json:"running"`
+	Members []MemberSnap     `json:"members"`
+	Client  map[uint64]Route `json:"client,omitempty"` // a ClusterClient's routing table
+	CErr    string           `json:"client_err,omitempty"`
+	Stable  bool             `json:"stable"`
+	Why     string           `json:"why,omitempty"`
 }
